@@ -387,7 +387,7 @@ Proof.
     + exists []. rewrite S0, D0. split; [reflexivity|]. intros _. unfold inflight. simp_ch. rewrite R. reflexivity.
     + reflexivity.
     + rewrite Dr0. discriminate.
-  - (* AEnq *) inv_some H. eapply ev_inv_view; [|exact I]. reflexivity.
+  - (* AEnq *) destruct (registered ch && Nat.ltb (length (q ch)) qcap); [|discriminate]. inv_some H. eapply ev_inv_view; [|exact I]. reflexivity.
   - (* ACtxd *) inv_some H. eapply ev_inv_view; [|exact I]. reflexivity.
 Qed.
 
